@@ -6,8 +6,9 @@ Steps (scratch worktree of /repo HEAD outside /repo and /verif, removed afterwar
   4. the repository's test suite still passes with the change; 5. the given checks (default: PID) report a violation."""
 import json, os, shutil, subprocess, sys, tempfile
 pid, name = sys.argv[1], sys.argv[2]
-prop = pid.replace("r2_", "").replace("r3_", "")
-tag = ("r2" if pid.startswith("r2_") else "r3" if pid.startswith("r3_") else "")
+import re
+prop = re.sub(r"^r\d+_", "", pid)
+tag = pid.split("_")[0] if re.match(r"^r\d+_", pid) else ""
 checks = sys.argv[3:] or [prop]
 src = f"/tmp/agents/{pid}/out"
 patch, demo, meta = f"{src}/{name}.diff", f"{src}/{name}_demo.py", f"{src}/{name}_meta.json"
